@@ -71,16 +71,22 @@ def declbatch(pid, stage, tier, seed, outdir, chk):
     if not ok:
         return {"build_error": vrun}
     nb, nfull, nnames = stage["batches_" + tier]
-    gen = os.path.join(chk.BUILD, "gen")
-    tdir = os.path.join(chk.BUILD, "gen-target")
+    feats = stage.get("features")  # None = default features
+    label = "" if feats is None else "-" + (feats.replace(",", "_") or "none")
+    mode = stage.get("mode", pid)
+    gen = os.path.join(chk.BUILD, "gen" + label)
+    tdir = os.path.join(chk.BUILD, "gen-target" + label)
     os.makedirs(os.path.join(gen, "src", "bin"), exist_ok=True)
-    lock = open(os.path.join(chk.BUILD, "gen.lock"), "w")
+    lock = open(os.path.join(chk.BUILD, "gen%s.lock" % label), "w")
     fcntl.flock(lock, fcntl.LOCK_EX)
     merged = chk.new_merge()
-    merged["stage"] = "generated-declarations/%s (%d batches x %d full + %d name-set declarations)" % (pid, nb, nfull, nnames)
+    merged["stage"] = "generated-declarations/%s%s (%d batches x %d full + %d name-set declarations)" % (mode, " features=[%s]" % feats if feats is not None else "", nb, nfull, nnames)
     merged["stage_extra"] = {}
     try:
         cargo_toml = open(os.path.join(chk.ROOT, "orch", "declbatch.Cargo.toml")).read()
+        if feats is not None:
+            fl = ", ".join('"%s"' % f for f in feats.split(",") if f)
+            cargo_toml = cargo_toml.replace('vharness = { path = "../../harness" }', 'vharness = { path = "../../harness", default-features = false, features = [%s] }' % fl)
         ct = os.path.join(gen, "Cargo.toml")
         if not os.path.exists(ct) or open(ct).read() != cargo_toml:
             open(ct, "w").write(cargo_toml)
@@ -119,7 +125,7 @@ def declbatch(pid, stage, tier, seed, outdir, chk):
             out = os.path.join(outdir, "decl-%s-%s.json" % (pid, name))
             if os.path.exists(out):
                 os.remove(out)
-            cmd = [os.path.join(tdir, "debug", name), "--mode", pid, "--tier", tier, "--out", out]
+            cmd = [os.path.join(tdir, "debug", name), "--mode", mode, "--tier", tier, "--out", out]
             try:
                 r = subprocess.run(cmd, stdout=subprocess.PIPE, stderr=subprocess.PIPE, timeout=stage.get("timeout", 3000), env=chk.ENV_BASE)
                 return name, r.returncode, r.stderr.decode("utf8", "replace"), out
@@ -132,8 +138,17 @@ def declbatch(pid, stage, tier, seed, outdir, chk):
                 r = json.load(open(out))
                 for v in r.get("violations", []):
                     v["replay"]["bin"] = name
+                    v["replay"]["features"] = feats
+                    v["replay"]["mode"] = mode
                     v["replay"]["tier"] = tier
                     v["replay"]["stage"] = {k: stage[k] for k in stage if k.startswith("batches_")}
+                if mode != pid:
+                    # monitors of another property run on behalf of this one (C16: per-build behaviour)
+                    for v in r.get("violations", []):
+                        v["clause"] = "%s:%s" % (v["property"], v["clause"])
+                        v["tag"] = "%s%s" % (v["tag"], label)
+                        v["property"] = pid
+                    r["violation_counts"] = {"%s|%s:%s|%s%s" % (pid, k.split("|")[0], k.split("|")[1], k.split("|")[2], label): n for k, n in r.get("violation_counts", {}).items()}
                 chk.merge_into(merged, r)
             elif rc == "timeout":
                 merged["inconclusive"].append("batch %s: wall-clock watchdog" % name)
@@ -268,3 +283,37 @@ def unsafe_coverage(pid, stage, tier, seed, outdir, chk):
     merged["evaluations"] = sites
     merged["wall"] = time.time() - t0
     return merged
+
+
+
+def declbatch_replay(r, chk):
+    """Regenerate the batch of a declbatch replay, compile it (same feature set), run the one declaration verbosely."""
+    import subprocess, shutil
+    ok, vrun = chk.build_variant("dbg")
+    if not ok:
+        chk.log(vrun)
+        return 2
+    feats = r.get("features")
+    label = "" if feats is None else "-" + (feats.replace(",", "_") or "none")
+    gen = os.path.join(chk.BUILD, "gen-replay" + label)
+    tdir = os.path.join(chk.BUILD, "gen-target" + label)
+    os.makedirs(os.path.join(gen, "src", "bin"), exist_ok=True)
+    cargo_toml = open(os.path.join(chk.ROOT, "orch", "declbatch.Cargo.toml")).read()
+    if feats is not None:
+        fl = ", ".join('"%s"' % f for f in feats.split(",") if f)
+        cargo_toml = cargo_toml.replace('vharness = { path = "../../harness" }', 'vharness = { path = "../../harness", default-features = false, features = [%s] }' % fl)
+    open(os.path.join(gen, "Cargo.toml"), "w").write(cargo_toml)
+    shutil.copy(os.path.join(chk.HARNESS, "Cargo.lock"), os.path.join(gen, "Cargo.lock"))
+    src = os.path.join(gen, "src", "bin", "replay.rs")
+    subprocess.run([vrun, "gen-decls", "--seed", str(r["seed"]), str(r["batch"]), str(r["n_full"]), str(r["n_names"]), src], env=chk.ENV_BASE, check=True)
+    env = dict(chk.ENV_BASE, CARGO_TARGET_DIR=tdir)
+    p = subprocess.run(["cargo", "build", "--offline", "--bin", "replay"], cwd=gen, env=env)
+    if p.returncode != 0:
+        return 2
+    cmd = [os.path.join(tdir, "debug", "replay"), "--mode", r["mode"], "--tier", r.get("tier", "quick"), "--verbose", "1"] + (["--only", str(r["decl"])] if r.get("decl", -1) >= 0 else [])
+    p = subprocess.run(cmd, env=chk.ENV_BASE, stdout=subprocess.PIPE, text=True)
+    found = [l for l in p.stdout.splitlines() if l.startswith("FOUND")]
+    print(p.stdout[:6000] if found else "(no violation reproduced)")
+    for l in found[:20]:
+        print(l)
+    return 1 if (found or p.returncode != 0) else 0
